@@ -354,6 +354,11 @@ func init() {
 				m.unsupported("reflect.Value.Elem of nil pointer")
 			}
 			et := t.Underlying().(*types.Pointer).Elem()
+			if len(x.path) == 0 && x.sym == nil && x.unsafeStr == nil {
+				// addressable: the box of the new Value is the pointee itself (flag 3), so that Set
+				// writes through
+				return &StructV{F: []Value{&Ptr{obj: m.rtypeObj(et)}, &Ptr{obj: x.obj}, BVC(64, 3)}}, true
+			}
 			return m.newReflectValue(fn, et, m.load(x)), true
 		case *IfaceV:
 			if x.T == nil {
@@ -362,6 +367,20 @@ func init() {
 			return m.newReflectValue(fn, x.T, x.V), true
 		}
 		m.unsupported("reflect.Value.Elem on %T", v)
+		return nil, true
+	})
+	reg("(reflect.Value).Set", func(m *Machine, th *Thread, fn *ssa.Function, a []Value) (Value, bool) {
+		st, ok := a[0].(*StructV)
+		if !ok || len(st.F) != 3 {
+			m.unsupported("reflect.Value.Set on a value that is not modelled")
+		}
+		fl, isT := st.F[2].(*Term)
+		if !isT || !fl.IsConst() || fl.c != 3 {
+			m.unsupported("reflect.Value.Set on a value that is not addressable in the model")
+		}
+		_, v := m.reflectValueParts(a[1])
+		box := st.F[1].(*Ptr)
+		m.store(&Ptr{obj: box.obj}, copyValue(v))
 		return nil, true
 	})
 	reg("reflect.DeepEqual", func(m *Machine, th *Thread, fn *ssa.Function, a []Value) (Value, bool) {
